@@ -2,6 +2,7 @@ package hpipe
 
 import (
 	"fmt"
+	"strings"
 	"time"
 
 	"github.com/ozontech/file.d/pipeline"
@@ -75,11 +76,84 @@ func Scenarios() []*Scn {
 	return all
 }
 
+// Grid is the thorough tier's pruned product: pool kind x capacity x processors x action chain x (sources, streams),
+// three events per source, every send succeeds, bound 2.
+func Grid() []*Scn {
+	var out []*Scn
+	type shape struct {
+		name    string
+		sources func(chain string) [][]Ev
+	}
+	evFor := func(chain string, i int, stream string) Ev {
+		body := fmt.Sprintf(`"k":%d`, i)
+		switch chain {
+		case "join", "discard,join", "split,join":
+			m := []string{"S1", "C2", "x3"}[i%3]
+			body += fmt.Sprintf(`,"m":%q`, m)
+		case "collapse":
+			if i%3 != 2 {
+				body += `,"c":1`
+			}
+		}
+		if chain == "discard,join" && i == 1 {
+			body += `,"d":"1"`
+		}
+		if chain == "split,join" && i == 0 {
+			body = `"arr":[{"m":"S1"},{"m":"x2"}]`
+		}
+		if stream != "" {
+			body = fmt.Sprintf(`"stream":%q,`, stream) + body
+		}
+		return Ev{JSON: "{" + body + "}", Stream: stream}
+	}
+	shapes := []shape{
+		{"1src-1stream", func(c string) [][]Ev { return [][]Ev{{evFor(c, 0, ""), evFor(c, 1, ""), evFor(c, 2, "")}} }},
+		{"1src-2streams", func(c string) [][]Ev { return [][]Ev{{evFor(c, 0, "x"), evFor(c, 1, "y"), evFor(c, 2, "x")}} }},
+		{"2src", func(c string) [][]Ev {
+			return [][]Ev{{evFor(c, 0, ""), evFor(c, 2, "")}, {evFor(c, 0, ""), evFor(c, 2, "")}}
+		}},
+	}
+	for _, pool := range []pipeline.PoolType{pipeline.PoolTypeStd, pipeline.PoolTypeLowMem} {
+		for _, capacity := range []int{1, 2} {
+			for _, single := range []bool{false, true} {
+				for _, chain := range []string{"", "join", "discard,join", "split,join", "collapse"} {
+					for _, sh := range shapes {
+						var actions []string
+						if chain != "" {
+							actions = strings.Split(chain, ",")
+						}
+						out = append(out, &Scn{
+							Name: fmt.Sprintf("G-%s-cap%d-single%v-%s-%s", pool, capacity, single, strings.ReplaceAll(chain, ",", "+"), sh.name),
+							Pool: pool, Capacity: capacity, SingleProc: single, Sources: sh.sources(chain), Actions: actions,
+							Workers: 2, Bound: 2, Horizon: 20 * time.Second, Props: "C01 C02 C04 C05",
+						})
+					}
+				}
+			}
+		}
+	}
+	return out
+}
+
 // RunProperty explores the scenarios that serve prop and reports only the clauses that belong to it.
 func RunProperty(prop string, r *vreport.Run) {
 	vplugQuiet()
 	var scs []vexplore.Scenario
-	for _, sc := range Scenarios() {
+	all := Scenarios()
+	if r.Thorough() {
+		// smallest hand-picked scenarios one bound deeper, plus the grid
+		for _, sc := range all {
+			n := 0
+			for _, src := range sc.Sources {
+				n += len(src)
+			}
+			if n <= 2 {
+				sc.Bound = 3
+			}
+		}
+		all = append(all, Grid()...)
+	}
+	for _, sc := range all {
 		sc := sc
 		if !contains(sc.Props, prop) {
 			continue
